@@ -25,10 +25,20 @@ Print Assumptions C10_header_no_panic.
        handled by the read loop of handleConnection ends in a request or an error. *)
 Theorem C10_connection_no_panic : forall (B : Type) known (body_read : Z -> Z -> bytes -> option B) flex fuel s,
   (length s < fuel)%nat ->
-  Forall safe (fst (serve B known body_read flex true fuel s)) /\
-  safe (snd (serve B known body_read flex true fuel s)).
+  Forall safe (fst (fst (serve B known body_read flex true fuel s))) /\
+  safe (snd (fst (serve B known body_read flex true fuel s))).
 Proof. exact serve_safe. Qed.
 Print Assumptions C10_connection_no_panic.
+
+(* ... the error path of the loop: a well-framed request that does not parse (header error,
+       unsupported API key, body rejected by the decoder) is answered by closing the
+       connection — outcome [Err e], end state E_CLOSED, the rest of the stream unread. *)
+Theorem C10_connection_error_path : forall (B : Type) known (body_read : Z -> Z -> bytes -> option B) flex fixed fuel p rest e,
+  zlen p < 2147483648 ->
+  parse_request B known body_read flex fixed p = Err e ->
+  serve B known body_read flex fixed (S fuel) (frame p ++ rest) = ([Err e], Err E_CLOSED, rest).
+Proof. exact serve_error_path. Qed.
+Print Assumptions C10_connection_error_path.
 
 (* (2) header round trip: non-flexible and flexible headers, with arbitrary tagged fields
        (any tag ids, any field bytes) in the flexible case, followed by any body bytes. *)
